@@ -967,7 +967,7 @@ func main() {
 			runRec(t1, em, "corpus-"+fn+"-threshold-one")
 		}
 		runEnt(&entIn{Self: 2, SelfShare: evalPoly(cs, 2).String(),
-			Pks: []pkIn{{1, evalPoly(cs, 1).String()}, {2, evalPoly(cs, 2).String()}, {3, evalPoly(cs, 3).String()}, {4, evalPoly(cs, 4).String()}},
+			Pks:       []pkIn{{1, evalPoly(cs, 1).String()}, {2, evalPoly(cs, 2).String()}, {3, evalPoly(cs, 3).String()}, {4, evalPoly(cs, 4).String()}},
 			Threshold: 3, Coeffs: polyStrings(cs), Msg: "corpus",
 			Msgs: []msgIn{{Sender: 1, Share: "5"}, {Sender: 9, Share: evalPoly(cs, 9).String()}, {Sender: 3, Garbage: 2},
 				{Sender: 2, Share: evalPoly(cs, 2).String()}, {Sender: 4, Share: evalPoly(cs, 4).String()},
